@@ -15,6 +15,9 @@ func decodeTypeSection(enabledFeatures api.CoreFeatures, r *bytes.Reader) ([]was
 	if err != nil {
 		return nil, fmt.Errorf("get size of vector: %w", err)
 	}
+	if uint64(vs) > uint64(r.Len()) {
+		return nil, fmt.Errorf("vector size %d exceeds the remaining %d bytes", vs, r.Len())
+	}
 
 	result := make([]wasm.FunctionType, vs)
 	for i := uint32(0); i < vs; i++ {
@@ -38,6 +41,10 @@ func decodeImportSection(
 	vs, _, err := leb128.DecodeUint32(r)
 	if err != nil {
 		err = fmt.Errorf("get size of vector: %w", err)
+		return
+	}
+	if uint64(vs) > uint64(r.Len()) {
+		err = fmt.Errorf("vector size %d exceeds the remaining %d bytes", vs, r.Len())
 		return
 	}
 
@@ -72,6 +79,9 @@ func decodeFunctionSection(r *bytes.Reader) ([]uint32, error) {
 	if err != nil {
 		return nil, fmt.Errorf("get size of vector: %w", err)
 	}
+	if uint64(vs) > uint64(r.Len()) {
+		return nil, fmt.Errorf("vector size %d exceeds the remaining %d bytes", vs, r.Len())
+	}
 
 	result := make([]uint32, vs)
 	for i := uint32(0); i < vs; i++ {
@@ -86,6 +96,9 @@ func decodeTableSection(r *bytes.Reader, enabledFeatures api.CoreFeatures) ([]wa
 	vs, _, err := leb128.DecodeUint32(r)
 	if err != nil {
 		return nil, fmt.Errorf("error reading size")
+	}
+	if uint64(vs) > uint64(r.Len()) {
+		return nil, fmt.Errorf("vector size %d exceeds the remaining %d bytes", vs, r.Len())
 	}
 	if vs > 1 {
 		if err := enabledFeatures.RequireEnabled(api.CoreFeatureReferenceTypes); err != nil {
@@ -113,6 +126,9 @@ func decodeMemorySection(
 	if err != nil {
 		return nil, fmt.Errorf("error reading size")
 	}
+	if uint64(vs) > uint64(r.Len()) {
+		return nil, fmt.Errorf("vector size %d exceeds the remaining %d bytes", vs, r.Len())
+	}
 	if vs > 1 {
 		return nil, fmt.Errorf("at most one memory allowed in module, but read %d", vs)
 	} else if vs == 0 {
@@ -127,6 +143,9 @@ func decodeGlobalSection(r *bytes.Reader, enabledFeatures api.CoreFeatures) ([]w
 	vs, _, err := leb128.DecodeUint32(r)
 	if err != nil {
 		return nil, fmt.Errorf("get size of vector: %w", err)
+	}
+	if uint64(vs) > uint64(r.Len()) {
+		return nil, fmt.Errorf("vector size %d exceeds the remaining %d bytes", vs, r.Len())
 	}
 
 	result := make([]wasm.Global, vs)
@@ -174,6 +193,9 @@ func decodeElementSection(r *bytes.Reader, enabledFeatures api.CoreFeatures) ([]
 	if err != nil {
 		return nil, fmt.Errorf("get size of vector: %w", err)
 	}
+	if uint64(vs) > uint64(r.Len()) {
+		return nil, fmt.Errorf("vector size %d exceeds the remaining %d bytes", vs, r.Len())
+	}
 
 	result := make([]wasm.ElementSegment, vs)
 	for i := uint32(0); i < vs; i++ {
@@ -190,6 +212,9 @@ func decodeCodeSection(r *bytes.Reader) ([]wasm.Code, error) {
 	if err != nil {
 		return nil, fmt.Errorf("get size of vector: %w", err)
 	}
+	if uint64(vs) > uint64(r.Len()) {
+		return nil, fmt.Errorf("vector size %d exceeds the remaining %d bytes", vs, r.Len())
+	}
 
 	result := make([]wasm.Code, vs)
 	for i := uint32(0); i < vs; i++ {
@@ -205,6 +230,9 @@ func decodeDataSection(r *bytes.Reader, enabledFeatures api.CoreFeatures) ([]was
 	vs, _, err := leb128.DecodeUint32(r)
 	if err != nil {
 		return nil, fmt.Errorf("get size of vector: %w", err)
+	}
+	if uint64(vs) > uint64(r.Len()) {
+		return nil, fmt.Errorf("vector size %d exceeds the remaining %d bytes", vs, r.Len())
 	}
 
 	result := make([]wasm.DataSegment, vs)
